@@ -140,7 +140,7 @@ int main(int argc, char** argv) {
     vf::Run run("C19", argc, argv); R = &run;
     OpmLog::removeAllBackends();
     Parser parser; P = &parser; PC = deckgen::lenient_context();
-    run.rule = "objects: one synthesised instance per parser deck name (2 value sets); records of representative keywords with every default pattern (embedded and trailing); data arrays of every length 0..3*columns+1 with and without default/repeat runs; hand-written specials (TITLE, raw-string, code, double-slash, table collection, strings with blanks/wildcards/slashes, UDA, extreme numbers); shipped decks; oracle: parse(print(d)) has the same structure, ints, strings, default flags, floats within 1e-9 relative (printed precision 10 digits), and print(parse(print(d))) == print(d); distinct = distinct printed texts";
+    run.rule = "objects: one synthesised instance per parser deck name (2 value sets); records of representative keywords with every default pattern (embedded and trailing); data arrays of every length 0..3*columns+1 with and without default/repeat runs; raw-string records (UDQ DEFINE / ACTIONX condition) of every token count 1..16 with a '/' at every position or none; hand-written specials (TITLE, raw-string, code, double-slash, table collection, strings with blanks/wildcards/slashes, UDA, extreme numbers); shipped decks; oracle: parse(print(d)) has the same structure, ints, strings, default flags, floats within 1e-9 relative (printed precision 10 digits), and print(parse(print(d))) == print(d); distinct = distinct printed texts";
     run.assumptions = {"value alphabet of engine/deckgen.hpp", "doubles compared at the printed precision (10 significant digits => 1e-9 relative)", "lenient ParseContext for one-keyword decks"};
     std::vector<std::string> rejected;
     std::vector<std::vector<deckgen::Instance>> cats = {deckgen::catalogue(parser, 0, &rejected), deckgen::catalogue(parser, 1, nullptr)};
@@ -184,6 +184,24 @@ int main(int argc, char** argv) {
             for (int i = 0; i < len; ++i) { if (mode == 1 && i % 5 == 2) t += " 3*" + std::to_string(i % 2 ? 0.125 : 1); else if (mode == 2 && i % 4 == 1 && std::string(kw) == "SWOF") t += " 1*"; else t += " " + (std::string(kw) == "ACTNUM" ? std::to_string(i % 2) : std::to_string(0.001 * (i + 1))); if (i % 7 == 6) t += "\n"; }
             t += " /\n";
             check_deck(t, std::string(kw) + " length " + std::to_string(len) + " mode " + std::to_string(mode), std::string("data-array:") + kw, "X " + [&] { std::string e; for (char c : t) { if (c == '\n') e += "\\n"; else e += c; } return e; }());
+        }
+    }
+    // raw-string records (UDQ DEFINE, ACTIONX condition): every token count 1..16 past the two fixed tokens x a '/' (division
+    // operator, or inside an operand) at every position or nowhere.  The last '/' of a physical LINE terminates a raw-string
+    // record, so where the printer breaks such a record decides whether it parses back.
+    {
+        auto esc = [](const std::string& t) { std::string e; for (char c : t) { if (c == '\n') e += "\\n"; else e += c; } return e; };
+        for (int kind = 0; kind < 2; ++kind) for (int n = 1; n <= 16; ++n) for (int sl = -1; sl < (kind == 0 ? n : 0); ++sl) {
+            if (!run.mine()) continue;
+            std::string rec;
+            for (int i = 0; i < n; ++i) {
+                std::string tok = (i % 2 == 0) ? (i % 4 == 0 ? "FOPR" : "FWPR") : (i % 4 == 1 ? "+" : "*");
+                if (kind == 1) tok = (i % 4 == 0) ? "FOPR" : (i % 4 == 1) ? ">" : (i % 4 == 2) ? std::to_string(10 + i) : "AND";
+                if (i == sl) tok = (i % 2 == 1) ? "/" : tok + "/2";
+                rec += " " + tok;
+            }
+            std::string t = kind == 0 ? "UDQ\n DEFINE FU_X" + rec + " /\n ASSIGN FU_Y 1.5 /\n/\n" : "ACTIONX\n A 1 /\n" + rec + " /\n/\nENDACTIO\n";
+            check_deck(t, std::string(kind == 0 ? "UDQ DEFINE" : "ACTIONX condition") + " with " + std::to_string(n) + " tokens, slash at " + std::to_string(sl), std::string("raw-record:") + (kind == 0 ? "UDQ" : "ACTIONX"), "X " + esc(t));
         }
     }
     // ordered pairs of keyword shapes in ONE deck: printer state must not leak from one keyword into the next
